@@ -47,6 +47,8 @@ struct MT { // one multi-tag with its own positions / extents arrays and indexed
     DataArray pos, ext;
     MultiTag tag;
     bool ext_linked;
+    bool cal_on;
+    bool calibrated;   // positions / extents arrays carry the polynomial {0, 2} and store HALF the intended numbers (2 * (p / 2) == p exactly)
     Built fiN, fiN1;
     bool has_fiN1;
     Feature feat_t, feat_u, feat_iN, feat_iN1;
@@ -58,6 +60,10 @@ static MT make_mt(Shared &S, size_t N, size_t cols, const std::string &suffix) {
     NDSize shape = cols == 0 ? NDSize({static_cast<ndsize_t>(N)}) : NDSize({static_cast<ndsize_t>(N), static_cast<ndsize_t>(cols)});
     m.pos = S.block.createDataArray("pos" + suffix, "t", DataType::Double, shape);
     m.ext = S.block.createDataArray("ext" + suffix, "t", DataType::Double, shape);
+    // every second multi-tag reads its positions and extents through a calibration: what counts is what the arrays READ AS
+    m.calibrated = (N + cols) % 2 == 1;
+    m.cal_on = m.calibrated;
+    if (m.calibrated) { m.pos.polynomCoefficients(std::vector<double>{0.0, 2.0}); m.ext.polynomCoefficients(std::vector<double>{0.0, 2.0}); }
     m.tag = S.block.createMultiTag("mt" + suffix, "t", m.pos);
     m.tag.addReference(S.ref.array);
     // the first indexed feature has MORE slices than there are positions: an index >= N must still raise
@@ -150,6 +156,18 @@ static void run_table(Shared &S, MT &m, const std::vector<Row> &rows, bool has_e
     // store the table
     std::vector<double> flatp(N * width), flate(N * width, 0.0);
     for (size_t i = 0; i < N; i++) for (size_t c = 0; c < width; c++) { flatp[i * width + c] = rows[i].p[c]; if (has_ext) flate[i * width + c] = rows[i].e[c]; }
+    {
+        // tables with a value that cannot be halved exactly (the smallest denormals) are stored plainly: the calibration is switched off for them
+        bool exact = m.calibrated;
+        for (double v : flatp) if ((v / 2) * 2 != v) exact = false;
+        for (double v : flate) if ((v / 2) * 2 != v) exact = false;
+        if (exact != m.cal_on) {
+            if (exact) { m.pos.polynomCoefficients(std::vector<double>{0.0, 2.0}); m.ext.polynomCoefficients(std::vector<double>{0.0, 2.0}); }
+            else { m.pos.polynomCoefficients(boost::none); m.ext.polynomCoefficients(boost::none); }
+            m.cal_on = exact;
+        }
+        if (exact) { for (double &v : flatp) v /= 2; for (double &v : flate) v /= 2; vf::count("tables_read_through_a_calibration"); }
+    }
     NDSize shape = m.cols == 0 ? NDSize({static_cast<ndsize_t>(N)}) : NDSize({static_cast<ndsize_t>(N), static_cast<ndsize_t>(width)});
     m.pos.setData(DataType::Double, flatp.data(), shape, NDSize(shape.size(), 0));
     if (has_ext) {
